@@ -1,6 +1,8 @@
 mod api;
 mod deviate;
+mod faults;
 mod apigen;
+mod backend;
 mod handle;
 mod locks;
 mod mutate;
@@ -104,6 +106,20 @@ fn main() {
                 locks::stress(arg_u64(&args, "--readers", 3) as usize, arg_u64(&args, "--millis", 1000));
             } else {
                 locks::traces(arg(&args, "--ops").unwrap(), arg(&args, "--impl").unwrap());
+            }
+        }
+        "faults" => {
+            if args.iter().any(|a| a == "--write") {
+                faults::write_campaign(arg_u64(&args, "--seed", 1), arg_u64(&args, "--max-runs", 600), arg(&args, "--ops").unwrap(), arg(&args, "--impl").unwrap());
+            } else if args.iter().any(|a| a == "--read") {
+                faults::read_campaign(arg_u64(&args, "--seed", 1), arg_u64(&args, "--pairs", 300), arg(&args, "--ops").unwrap(), arg(&args, "--impl").unwrap());
+            }
+        }
+        "variants" => {
+            let (n, v) = apigen::variants(arg(&args, "--ops").unwrap(), arg(&args, "--scratch").unwrap());
+            println!("STAT evaluations {}", n);
+            for x in &v {
+                println!("ORACLE {}", x);
             }
         }
         "upper-dump" => names::upper_dump(arg(&args, "--out").unwrap()),
